@@ -1,5 +1,6 @@
 import LP.Model.MPoly
 import LP.Model.GcdCheck
+import LP.Model.Resultant
 import LP.Driver.Scalar
 namespace LP.Driver
 open LP
@@ -451,5 +452,46 @@ def checkUGcd (op : String) (args res : List String) : Verdict :=
           | _, _, _, _, _ => .viol "up-canon" "bezout operand/result not canonical")
        | _, _, _ => .skip s!"unknown ugcd op {op}")
   | _ => .skip "short ugcd line"
+
+end LP.Driver
+
+namespace LP.Driver
+open LP
+
+def checkRes (op : String) (args res : List String) : Verdict :=
+  let K : Ring := none
+  match args, res with
+  | [_, xs, a, b], [r] =>
+    (match pNat? xs, pPolyRaw? a, pPolyRaw? b with
+     | some x, some ra, some rb =>
+       if !(rawCanonical K ra && rawCanonical K rb) then .viol "poly-canon" "operand not canonical" else
+       let A := MPoly.normalize K ra
+       let B := MPoly.normalize K rb
+       let m := MPoly.degreeIn x A
+       let n := MPoly.degreeIn x B
+       if m + n > 7 then .skip "order above the determinant cap" else
+       let tag := s!"{op}/{if m < n then "m<n" else if m = n then "m=n" else "m>n"}/order{m + n}"
+       let outs := r.splitOn ";"
+       let parsed := outs.mapM (fun s => match pPolyRaw? s with
+         | some raw => if rawCanonical K raw then some (MPoly.normalize K raw) else none
+         | none => none)
+       match op, parsed with
+       | _, none => .viol "poly-canon" "result not canonical"
+       | "resultant", some [R] =>
+         let want := MPoly.resultantSpec K x A B
+         if R = want then .ok tag else .viol "res-resultant" s!"got {showPoly R} Sylvester determinant {showPoly want}"
+       | "psc", some ps =>
+         let bad := ps.zipIdx.find? (fun e => e.1 ≠ MPoly.pscSpec K x A B e.2)
+         (match bad with
+          | none => if ps.length = min m n + 1 then .ok tag else .viol "res-psc" "wrong number of psc"
+          | some e => .viol "res-psc" s!"psc[{e.2}] = {showPoly e.1}, Sylvester sub-determinant {showPoly (MPoly.pscSpec K x A B e.2)}")
+       | "subres", some ss =>
+         let bad := ss.zipIdx.find? (fun e => e.1 ≠ MPoly.sresSpec K x A B e.2)
+         (match bad with
+          | none => if ss.length = min m n + 1 then .ok tag else .viol "res-subres" "wrong chain length"
+          | some e => .viol "res-subres" s!"S[{e.2}] = {showPoly e.1}, determinant polynomial {showPoly (MPoly.sresSpec K x A B e.2)}")
+       | _, _ => .skip "bad res shape"
+     | _, _, _ => .skip "bad res line")
+  | _, _ => .skip "res arity"
 
 end LP.Driver
